@@ -313,6 +313,14 @@ impl Response {
                 let col_count = u32::from_le_bytes(payload[0..4].try_into().unwrap()) as usize;
                 offset += 4;
 
+                // Every string carries at least its 4-byte length prefix: a count that cannot fit
+                // in what is left of the message is garbage and must not drive an allocation.
+                if col_count > (payload.len() - offset) / 4 {
+                    return Err(TcpError::InvalidMessage(
+                        "Column count exceeds message size".into(),
+                    ));
+                }
+
                 let mut columns = Vec::with_capacity(col_count);
 
                 for _ in 0..col_count {
@@ -327,6 +335,18 @@ impl Response {
                 let row_count =
                     u32::from_le_bytes(payload[offset..offset + 4].try_into().unwrap()) as usize;
                 offset += 4;
+
+                let max_rows = if col_count == 0 {
+                    // rows of a zero-column result set take no bytes at all: bound them separately
+                    u16::MAX as usize
+                } else {
+                    (payload.len() - offset) / (4 * col_count)
+                };
+                if row_count > max_rows {
+                    return Err(TcpError::InvalidMessage(
+                        "Row count exceeds message size".into(),
+                    ));
+                }
 
                 let mut data = Vec::with_capacity(row_count);
                 for _ in 0..row_count {
